@@ -37,3 +37,16 @@ FLAGS = {
 def response(tag, body=b'ok'):
     """A distinguishable canned upstream response."""
     return b'HTTP/1.1 200 OK\r\nX-Origin: ' + tag + b'\r\nContent-Length: ' + (b'%d' % len(body)) + b'\r\n\r\n' + body
+
+
+class _FirstChoice:
+    """random.choice stand-in for executor-level scenarios (CrossHair otherwise mocks `random` with symbolic bits and the
+    rejection loop in random._randbelow explodes). The upstream choice itself is C12's subject (solver-chosen index there)."""
+
+    @staticmethod
+    def choice(seq):
+        return seq[0]
+
+
+from proxy.http.server import reverse as _rv   # noqa: E402
+_rv.random = _FirstChoice
